@@ -55,6 +55,10 @@ Inductive value :=
 | VBytes (b : bytes)
 | VListing (active : option bytes) (others : list bytes).
 
+(* ghost events *)
+Inductive ghost :=
+| GAuthOk.   (* the reply to an AUTHENTICATE exchange was OK; `authenticated` is being set *)
+
 Inductive prog : Type :=
 | Done : value -> cstate -> prog
 | Fail : exn -> cstate -> prog
@@ -62,7 +66,8 @@ Inductive prog : Type :=
 | RdBlock : cstate -> N -> (bytes -> prog) -> prog
 | Send : bytes -> prog -> prog
 | Connect : cstate -> prog -> prog      (* socket.create_connection; failure raises Error *)
-| TlsWrap : cstate -> prog -> prog.     (* context.wrap_socket; SSLError raises Error *)
+| TlsWrap : cstate -> prog -> prog      (* context.wrap_socket; SSLError raises Error *)
+| Mark : ghost -> prog -> prog.         (* ghost event, no effect: names a program point in traces *)
 (* Connect and TlsWrap also stand for the `self.__read_buffer = b""` that accompanies
    them in connect() and __starttls(): both start reading from a fresh byte stream. *)
 
@@ -338,7 +343,7 @@ Definition authenticate (fuel : nat) (login password authz : bytes) (authmech : 
       match select_mech v authmech with
       | None => k (set_errmsg (bs "No suitable mechanism found") st) false
       | Some m =>
-          let fin st (ok : bool) := if ok then k (set_auth true st) true else k st false in
+          let fin st (ok : bool) := if ok then Mark GAuthOk (k (set_auth true st) true) else k st false in
           if beq m (bs "PLAIN") then plain_auth fuel login password authz st fin
           else if beq m (bs "LOGIN") then login_auth fuel login password authz st fin
           else if beq m (bs "OAUTHBEARER") then oauthbearer_auth fuel login password authz st fin
